@@ -250,8 +250,8 @@ func run(c *hl.Ctx) error {
 		}
 	}
 	for _, typ := range types {
-		for i := c.Pick(24, 1200); i > 0; i-- {
-			box := [4]float64{geoutil.Q(r, -300, 600), geoutil.Q(r, -300, 600), float64(20 + r.Intn(500)), float64(20 + r.Intn(400))}
+		for i := c.Pick(60, 1200); i > 0; i-- {
+			box := [4]float64{geoutil.Q(r, -300, 600), geoutil.Q(r, -300, 600), float64(75 + r.Intn(500)), float64(75 + r.Intn(400))}
 			if r.Intn(4) == 0 {
 				box[3] = box[2]
 			}
